@@ -278,7 +278,6 @@ func runC15(r *vf.Run) {
 		var di int
 		fmt.Sscanf(id, "dmg%d", &di)
 		d := damages[di]
-		lrng := r.RNG(id)
 		b := bases[di%len(bases)]
 		r.Cover("damage_bucket", d.bucket)
 		r.Cover("damage_schema", d.schema)
@@ -289,6 +288,7 @@ func runC15(r *vf.Run) {
 			if !r.Want(cid) {
 				continue
 			}
+			lrng := r.RNG(cid) // per-case stream (replay draws the same damage)
 			preload := opt == "preloaded" || opt == "preloaded+cached"
 			path := filepath.Join(dir, fmt.Sprintf("%s-%d.updog", id, oi))
 			if err := ix.CopyFile(b.path, path); err != nil {
